@@ -809,8 +809,17 @@ asn_double2REAL(REAL_t *st, double dbl_value) {
 		*ptr++ = expval;
 	}
 
-	buflen = (mstop - dscr) + 1;
-	memcpy(ptr, dscr, buflen);
+	{
+		/*
+		 * Making the mantissa odd may have shifted its leading octet(s)
+		 * to zero: do not emit them (minimal contents octets).
+		 */
+		uint8_t *mstart = dscr;
+		while(mstart < mstop && *mstart == 0)
+			mstart++;
+		buflen = (mstop - mstart) + 1;
+		memcpy(ptr, mstart, buflen);
+	}
 	ptr += buflen;
 	buflen = ptr - buf;
 
